@@ -157,6 +157,9 @@ class Orchestrator:
                 and not overwrite_fitted_strategies
                 and (fitted_stategy_exists or not save_fitted_strategies)
             ):
+                # results completed by an earlier (possibly interrupted) run
+                # still belong to the registry of this results object
+                self.results._append_key(strategy.name, dataset.name)
                 log.warn(
                     f"Skipping strategy: {strategy.name} on CV-fold: "
                     f"{cv_fold} of dataset: {dataset.name}"
